@@ -12,6 +12,7 @@ SRC=/tmp/seed-$ID-out/$V
 [[ $V == h ]] && SRC=/tmp/seed4-$ID-out/b
 [[ $V == i ]] && SRC=/tmp/seed5-$ID-out/a
 [[ $V == j ]] && SRC=/tmp/seed5-$ID-out/b
+[[ $V == k ]] && SRC=/tmp/seed6-$ID-out/a
 [[ -d /verif/seeded/$ID-$V ]] && SRC=/verif/seeded/$ID-$V
 D=$(mktemp -d /tmp/vf-seed-XXXXXX)
 if [[ -n "${BASE:-}" ]]; then git -C /repo archive "$BASE" | tar -x -C "$D"; echo "(base tree: $BASE)"; else rsync -a --exclude .git --exclude __pycache__ /repo/ "$D/"; fi
